@@ -225,17 +225,21 @@ Routes == {"returned", "list", "map", "mapcb", "try", "sorted", "fromgo"}
 \* pad extra locals per function: with more than 8 local slots the VM keeps a frame's locals in separately
 \* allocated storage that captured cells point into
 Pad(i, pad) == [j \in 1..pad |-> VarS("q" \o ToString(i) \o "x" \o ToString(j), I(j))]
-RECURSIVE Nest(_,_,_,_,_)
-\* body of level i (1-based) of a chain of depth d
-Nest(i, d, rd, wr, pad) ==
-  IF i = d THEN Pad(i, pad) \o <<AssignS(Lv(wr), "+=", I(10)), ES(Bin("+", Bin("*", Id(Lv(rd)), I(100)), Id(Lv(wr))))>>
-  ELSE Pad(i, pad) \o <<VarS(Lv(i + 1), I(i + 1)), Ret(FuncE("", <<>>, Nest(i + 1, d, rd, wr, pad)))>>
+RECURSIVE Nest(_,_,_,_,_,_)
+\* body of level i (1-based) of a chain of depth d; with `shadow` the innermost function, after using the captured
+\* variable v_rd, declares a local of the same name and uses THAT from a nested block (the outer one keeps its value)
+Nest(i, d, rd, wr, pad, shadow) ==
+  IF i = d THEN Pad(i, pad) \o <<AssignS(Lv(wr), "+=", I(10))>> \o
+                (IF shadow THEN <<PV(6, Id(Lv(rd))), VarS(Lv(rd), I(50)),
+                                  ES(IfE(Bl(TRUE), <<AssignS(Lv(rd), "+=", I(7)), PV(7, Id(Lv(rd)))>>))>> ELSE <<>>) \o
+                <<ES(Bin("+", Bin("*", Id(Lv(rd)), I(100)), Id(Lv(wr))))>>
+  ELSE Pad(i, pad) \o <<VarS(Lv(i + 1), I(i + 1)), Ret(FuncE("", <<>>, Nest(i + 1, d, rd, wr, pad, shadow)))>>
 \* chain(d): function taking no args, returning nested closures until depth d
-Chain(d, rd, wr, pad) == FuncE("", <<>>, Nest(1, d, rd, wr, pad))
+Chain(d, rd, wr, pad, shadow) == FuncE("", <<>>, Nest(1, d, rd, wr, pad, shadow))
 RECURSIVE Unwrap(_,_)
 Unwrap(e, n) == IF n = 0 THEN e ELSE Unwrap(CallE(e, <<>>), n - 1)
-ClosureProg(d, rd, wr, route, twice, pad) ==
-  LET mk == <<VarS("v1", I(1)), VarS("mk", Chain(d, rd, wr, pad))>>
+ClosureProg(d, rd, wr, route, twice, pad, shadow) ==
+  LET mk == <<VarS("v1", I(1)), VarS("mk", Chain(d, rd, wr, pad, shadow))>>
       inner(nm) == VarS(nm, Unwrap(Id("mk"), d - 1))       \* the innermost closure, all ancestors returned
       call(nm) == CallE(Id(nm), <<>>)
   IN CASE route = "returned" ->
@@ -265,6 +269,7 @@ ClosureProg(d, rd, wr, route, twice, pad) ==
                                  FuncE("", <<Param("x"), Param("y")>>, <<ES(call("g")), ES(Bin("<", Id("x"), Id("y")))>>)>>)),
                     PV(2, call("g")), ES(Id("v1"))>>
 \* only well-scoped scenarios: the innermost function of a chain of depth d can see v_1 .. v_d
-Closures(maxd) == UNION {{ClosureProg(d, rd, wr, route, twice, pad) :
-                            rd \in 1..d, wr \in 1..d, route \in Routes, twice \in BOOLEAN, pad \in {0, 9}} : d \in 1..maxd}
+Closures(maxd) == UNION {{ClosureProg(d, rd, wr, route, twice, ps[1], ps[2]) :
+                            rd \in 1..d, wr \in 1..d, route \in Routes, twice \in BOOLEAN,
+                            ps \in {<<0, FALSE>>, <<9, FALSE>>, <<0, TRUE>>}} : d \in 1..maxd}
 =============================================================================
